@@ -145,9 +145,15 @@ func (vc *VC) call(in ssa.Instruction, cc *ssa.CallCommon, h *Heap) []string {
 			blk := in.Block()
 			ev.resolve = func(n string) (EVal, bool) { return vc.resolveLocalAtBlock(ev, n, blk) }
 			for i, c := range cls {
+				// a call site where a local named by the assertion does not exist yet (an earlier
+				// call of the same callee) is not a target of that assertion
+				if _, err := ev.boolExpr(c.E, true); err != nil && strings.Contains(err.Error(), "unknown name") {
+					ev.skolems, ev.hyps = nil, nil
+					continue
+				}
 				vc.goalClause(ev, c, fmt.Sprintf("%s/at-call@%s#%d@%s", root.key, short, i+1, vc.pos(in.Pos())), "at-call", vc.curR, vc.pos(in.Pos()))
+				root.atCallSeen[short]++
 			}
-			root.atCallSeen[short]++
 		}
 	}
 	// mutexes
@@ -180,6 +186,50 @@ func (vc *VC) call(in ssa.Instruction, cc *ssa.CallCommon, h *Heap) []string {
 			return fresh()
 		}
 		return nil
+	}
+	// sort.Slice / sort.SliceStable / sort.Strings ...: the elements of the slice are rearranged.
+	// Model: every element of the result is one of the old elements (same length, same
+	// backing array); ordering by the comparator is not modelled.
+	if name == "sort.Slice" || name == "sort.SliceStable" || name == "sort.Strings" || name == "sort.Ints" || name == "sort.Sort" || name == "sort.Stable" {
+		var sv ssa.Value
+		if mi, ok := cc.Args[0].(*ssa.MakeInterface); ok {
+			sv = mi.X
+		} else if _, isSl := cc.Args[0].Type().Underlying().(*types.Slice); isSl {
+			sv = cc.Args[0]
+		}
+		if sv != nil {
+			if st, isSl := sv.Type().Underlying().(*types.Slice); isSl {
+				s := vc.val1(sv)
+				ls := vc.L.Leaves(st.Elem())
+				pre := h.clone()
+				lo, hi := "(s_off "+s+")", "(+ (s_off "+s+") (s_len "+s+"))"
+				var rows []string
+				for i, l := range ls {
+					cur := pre.H[l.Sort]
+					slot := plus("(s_slot "+s+")", num(int64(i)))
+					oldRow := sel(sel(cur, "(s_obj "+s+")"), slot)
+					row := vc.declare(vc.fresh("sortrow"), "(Array Int "+innerSort[l.Sort]+")")
+					rows = append(rows, row)
+					vc.assume(fmt.Sprintf("(forall ((k Int)) (! (=> (not (and (<= %s k) (< k %s))) (= (select %s k) (select %s k))) :pattern ((select %s k))))", lo, hi, row, oldRow, row))
+					base := h.H[l.Sort]
+					h.H[l.Sort] = vc.define("H"+sortTag[l.Sort], heapSortName(l.Sort), sto(base, "(s_obj "+s+")", sto(sel(base, "(s_obj "+s+")"), slot, row)))
+				}
+				// permutation witness: new[k] == old[perm(k)] for all leaves, perm maps the range into itself
+				perm := vc.fresh("sortperm")
+				vc.declareRaw(perm, "(declare-fun "+perm+" (Int) Int)")
+				var eqs []string
+				for i, l := range ls {
+					cur := pre.H[l.Sort]
+					slot := plus("(s_slot "+s+")", num(int64(i)))
+					eqs = append(eqs, fmt.Sprintf("(= (select %s k) (select %s (%s k)))", rows[i], sel(sel(cur, "(s_obj "+s+")"), slot), perm))
+				}
+				if len(rows) > 0 {
+					vc.assume(fmt.Sprintf("(forall ((k Int)) (! (=> (and (<= %s k) (< k %s)) (and (<= %s (%s k)) (< (%s k) %s) %s)) :pattern ((select %s k))))", lo, hi, lo, perm, perm, hi, strings.Join(eqs, " "), rows[0]))
+				}
+				vc.note("sort.*: result elements are old elements (ordering by the comparator not modelled)")
+				return nil
+			}
+		}
 	}
 	// sync/atomic on plain integers: sequential semantics
 	if strings.HasPrefix(name, "sync/atomic.") {
@@ -636,6 +686,19 @@ func (vc *VC) havocLoc(h *Heap, l modLoc, e Expr) {
 		name, g, _ := vc.ghostHeap(h, l.ghost)
 		_ = name
 		h.M["G_"+l.ghost] = vc.declare(vc.fresh("G_"+sanitize(l.ghost)), g.SMTSort())
+		return
+	}
+	if l.anyDyn != 0 {
+		// typed havoc: slots [a.Slot, a.Slot+n) of every object of that dynamic type
+		for i := 0; i < l.n; i++ {
+			s := l.sorts[i]
+			old := h.H[s]
+			nh := vc.newHeapConst(s)
+			slot := plus(l.a.Slot, num(int64(i)))
+			vc.assume(fmt.Sprintf("(forall ((o Int)) (! (=> (not (= (dyntype o) %d)) (= (select %s o) (select %s o))) :pattern ((select %s o))))", l.anyDyn, nh, old, nh))
+			vc.assume(fmt.Sprintf("(forall ((o Int) (sl Int)) (! (=> (not (= sl %s)) (= (select (select %s o) sl) (select (select %s o) sl))) :pattern ((select (select %s o) sl))))", slot, nh, old, nh))
+			h.H[s] = nh
+		}
 		return
 	}
 	if l.allMaps {
